@@ -22,15 +22,21 @@ impl<S: Storage> SystemTableScan<S> {
             .catalog
             .get_table(&self.table_id)
             .expect("table not found");
-        assert_eq!(self.columns.len(), table.all_columns().len());
-
-        yield match table.name() {
+        let chunk = match table.name() {
             "contributors" => contributors(),
             "pg_tables" => pg_tables(self.catalog),
             "pg_indexes" => pg_indexes(self.catalog),
             "pg_attribute" => pg_attribute(self.catalog),
             "pg_stat" => pg_stat(self.catalog, &*self.storage).await?,
             name => panic!("unknown system table: {:?}", name),
+        };
+        // the optimizer prunes unused columns: return the requested ones in the requested order
+        yield if self.columns.is_empty() {
+            DataChunk::no_column(chunk.cardinality())
+        } else {
+            (self.columns.iter())
+                .map(|c| chunk.array_at(c.column_id as usize).clone())
+                .collect()
         };
     }
 }
